@@ -236,6 +236,40 @@ def model_locks(sched, *objs):
     return done
 
 
+class lock_factories:
+    """Context manager: inside the given modules the names threading / Lock / RLock create scheduler-aware locks, so that a
+    lock the code under test creates lazily DURING a schedule (instead of holding it as an attribute beforehand) does not park
+    a participant outside the scheduler's control."""
+
+    def __init__(self, sched, *modules):
+        self.sched, self.modules, self.saved = sched, modules, []
+
+    def __enter__(self):
+        sched = self.sched
+
+        class Shim:
+            def __getattr__(self_inner, name):
+                return getattr(threading, name)
+
+            def Lock(self_inner):
+                return SchedLock(sched)
+
+            def RLock(self_inner):
+                return SchedLock(sched)
+        shim = Shim()
+        for mod in self.modules:
+            for name, repl in (("threading", shim), ("Lock", shim.Lock), ("RLock", shim.RLock)):
+                if name in vars(mod):
+                    self.saved.append((mod, name, vars(mod)[name]))
+                    setattr(mod, name, repl)
+        return self
+
+    def __exit__(self, *a):
+        for mod, name, old in self.saved:
+            setattr(mod, name, old)
+        self.saved = []
+
+
 def all_code_objects(*funcs):
     """code objects of the given functions including nested ones (co_consts)."""
     out = []
